@@ -804,16 +804,56 @@ func c16Flow(c *Ctx) {
 				var bad []string
 				for k := range tag {
 					switch k {
-					case "short", "help", "name", "placeholder", "type", "default", "env", "aliases", "group", "negatable", "":
+					case "short", "help", "name", "placeholder", "type", "aliases", "group", "negatable", "":
 					default:
 						bad = append(bad, k)
 					}
 				}
 				sort.Strings(bad)
-				c.check(len(bad) == 0, "C16.9", "AgentCmd."+f.Name()+":kong-options", "-", "the --"+strings.ToLower(f.Name())+" flag is an unconstrained flag (no xor/and/required/enum/hidden option): every documented flag combination reaches Run", fmt.Sprintf("options: %v", sortedKeys(tag)))
+				c.check(len(bad) == 0, "C16.9", "AgentCmd."+f.Name()+":kong-options", "-", "the --"+strings.ToLower(f.Name())+" flag is an unconstrained flag whose value comes from the command line only (no xor/and/required/enum/hidden/env/default option): every documented flag combination reaches Run and nothing ambient chooses the directory", fmt.Sprintf("options: %v", sortedKeys(tag)))
 			}
 			c.floor("C16.9", "target flags of AgentCmd", nFlags, 2)
 		}
+	}
+
+	// C16.9 (cont.) the parser is built with presentation options only: nothing that feeds flags from the environment, from
+	// configuration files or through resolvers (the installation directory is a function of the command line alone)
+	if run := L.fn(cfgPkg, "Run"); run != nil {
+		c.seen(fnName(run))
+		nOpt := 0
+		for _, cs := range callsIn(run) {
+			if cs.callee != "github.com/alecthomas/kong.Parse" && cs.callee != "github.com/alecthomas/kong.New" && cs.callee != "github.com/alecthomas/kong.Must" {
+				continue
+			}
+			elems, ok := variadicElems(cs.common.Args[len(cs.common.Args)-1])
+			if !ok {
+				c.undecided("C16.9", "config.Run:kong-parser-options", "the option list of the kong parser is not a literal list")
+				continue
+			}
+			for _, e := range elems {
+				nOpt++
+				v := resolve(e)
+				if mi, isMI := v.(*ssa.MakeInterface); isMI {
+					v = resolve(mi.X)
+				}
+				name := describe(v)
+				okOpt := false
+				if call, isCall := v.(*ssa.Call); isCall {
+					name = calleeOf(call.Common())
+					switch strings.TrimPrefix(name, "github.com/alecthomas/kong.") {
+					case "Name", "Description", "UsageOnError", "ConfigureHelp", "Help", "HelpFormatter", "ShortUsageOnError", "ShortHelp", "Exit", "Writers", "NoDefaultHelp", "ExplicitGroups", "AutoGroup", "Bind", "BindTo", "BindToProvider", "WithBeforeApply", "ValueFormatter", "PostBuild":
+						okOpt = true
+					}
+				} else if strings.HasSuffix(v.Type().String(), "kong.Vars") || strings.HasSuffix(e.Type().String(), "kong.Vars") {
+					okOpt, name = true, "kong.Vars"
+				} else if mi, isMI := resolve(e).(*ssa.MakeInterface); isMI && strings.HasSuffix(mi.X.Type().String(), "kong.Vars") {
+					okOpt, name = true, "kong.Vars"
+				}
+				c.check(okOpt, "C16.9", "config.Run:kong-option:"+strings.TrimPrefix(name, "github.com/alecthomas/kong."), L.pos(cs.instr.Pos()),
+					"the command-line parser gets presentation options only (no DefaultEnvars, Configuration, Resolvers or mappers: flag values come from the command line)", name)
+			}
+		}
+		c.floor("C16.9", "options of the kong parser in config.Run", nOpt, 1)
 	}
 
 	// C16.6 success only after the whole walk: every success return of Install is dominated by the checked WalkDir call
